@@ -457,7 +457,7 @@ func wsDialerCase(o *out, scheme string, p proto, r *rand.Rand) {
 		ws  *websocket.Conn
 		sub []string
 	}
-	connq := make(chan conn, 1)
+	connq := make(chan conn, 4)
 	up := websocket.Upgrader{Subprotocols: []string{p.peerName + ".sp.nanomsg.org"}, CheckOrigin: func(*http.Request) bool { return true }}
 	mux := http.NewServeMux()
 	mux.HandleFunc(u.Path, func(rw http.ResponseWriter, rq *http.Request) {
@@ -490,6 +490,7 @@ func wsDialerCase(o *out, scheme string, p proto, r *rand.Rand) {
 		_ = s.SetOption(mangos.OptionRetryTime, time.Hour)
 	}
 	_ = s.SetOption(mangos.OptionSendDeadline, 2*time.Second)
+	_ = s.SetOption(mangos.OptionReconnectTime, 10*time.Millisecond)
 	if err := s.DialOptions(a, wire.Opts(scheme, false)); err != nil {
 		o.add(&o.notes, fmt.Sprintf("ws dial %s %s: %v", scheme, p.sock, err))
 		o.add(&o.wsub, fmt.Sprintf("(%s, %q) (* dial failed: %v *)", coqgen.Hex([]byte(p.peerName)), "", err))
@@ -531,6 +532,18 @@ func wsDialerCase(o *out, scheme string, p proto, r *rand.Rand) {
 		<-done
 		o.add(&o.wsmsg, fmt.Sprintf("(%s, %q, %s, %s)", p.coq, "", coqgen.List(frames), hexList(bs)))
 	}
+	// the connection is lost: the same dialer connects again (twice) and offers exactly the same subprotocol each time
+	for k := 2; k <= 3; k++ {
+		_ = c.ws.Close()
+		select {
+		case c = <-connq:
+			o.add(&o.wsub, fmt.Sprintf("(%s, %s) (* offered by the %s dialer's connection number %d *)", coqgen.Hex([]byte(p.peerName)), coqgen.Hex([]byte(strings.Join(c.sub, ","))), p.sock, k))
+		case <-time.After(3 * time.Second):
+			o.add(&o.notes, fmt.Sprintf("ws: the %s dialer did not reconnect (connection %d)", p.sock, k))
+			return
+		}
+	}
+	_ = c.ws.Close()
 }
 
 // a raw websocket client dials a mangos listener offering the right / a wrong subprotocol
